@@ -500,7 +500,10 @@ def _gen_step(rnd, sh, src, shadows, focus=None, strict=False):
             n0 = sh.dims[s0['d']]
             nonempty = s0['s']['k'] == 'int' or len(range(*py_sel(
                 s0['s']).indices(n0))) > 0
-            if nonempty:    # (an empty selection is not what the form is for)
+            # (an empty selection is not what the form is for; the helpers
+            # copy through Pseudo2NetCDF, which maps booleans - results of
+            # comparisons - to a netCDF integer type by design)
+            if nonempty and '?' not in sh.dt.values():
                 a['via'] = 'slice_dim'
     elif act == 'apply':
         nd = rnd.randint(1, min(3, len(dims)))
@@ -525,7 +528,8 @@ def _gen_step(rnd, sh, src, shadows, focus=None, strict=False):
                            'f': rnd.choice(sorted(CALLABLES))})
         a['funcs'] = fs
         # the string forms reduce_dim / convolve_dim of a single function
-        if len(fs) == 1 and rnd.random() < 0.35:
+        if len(fs) == 1 and rnd.random() < 0.35 and \
+                '?' not in sh.dt.values():
             if fs[0]['kind'] == 'reducer':
                 a['via'] = 'reduce_dim'
             elif fs[0]['f'] in CONVDEFS:
